@@ -13,6 +13,10 @@ VERIF*/
 #define CALL_BARRIER_COMPLETE 1
 static void _dispatch_lane_barrier_complete(dispatch_lane_class_t dqu, dispatch_qos_t qos, dispatch_wakeup_flags_t flags)
 { __verif_event(EV_CALL, 0, dqu._dl, CALL_BARRIER_COMPLETE, flags); }
+/* not called by the current code; its real body is one dx_push(tq, dq, max_qos(state)) whose union-to-union argument conversion CBMC rejects:
+ * modelled as that push so that a version using the helper is judged by the same reference accounting */
+static inline void _dispatch_queue_push_queue(dispatch_queue_t tq, dispatch_queue_class_t dq, uint64_t dq_state)
+{ __verif_event(EV_PUSH, 0, tq, (unsigned long long)(uintptr_t)dq._dq, _dq_state_max_qos(dq_state)); }
 
 /* log layout on every path: [0] the single dq_state commit, then the call-outs */
 #define OLD LOGA(0)
